@@ -6,7 +6,7 @@ Require Extraction.
 Require Import ExtrOcamlBasic.
 Extraction Language OCaml.
 Extraction "msm_model.ml" run run_op build init_rnode snapshot default_fuel doc_order seqn flags_snapshot
-  parse_row parse_stt cleanup_token parse_action count_actions count_transitions parse_guard gshow
+  parse_row parse_stt count_inits count_terminates cleanup_token parse_action count_actions count_transitions parse_guard gshow
   sstep wf_op init_store destroy_all cells
   run_wop init_world
   elab_euml elab_basic basic_tag frow_tag frow_guard frow_action
